@@ -390,7 +390,8 @@ def rejections(cfg, fn_node: ast.AST, defs: Defs | None = None) -> list[dict]:
             its, cs = _quantified(t, truth)
             iters += its
             conds += cs
-            if isinstance(test, ast.Constant) and bool(test.value) != truth:
+            v = bool_eval(test, {})
+            if v is not None and v != truth:
                 dead = True
         out.append({"node": st, "iters": iters, "conds": conds, "tests": tests, "dead": dead})
     return out
